@@ -237,8 +237,8 @@ def run(ctx):
         for mode in ("fixed", "jump"):
             for seed in (None, 0, 7):
                 standard_case(ctx, kind, mode, rng.choice([2, 3, 5, 8]), seed, 1)
-    for _ in range(ctx.n(4, 40)):
-        standard_case(ctx, rng.choice(["hem", "merton", "ctmc", "bs"]), rng.choice(["fixed", "jump"]), rng.randint(2, 12), rng.choice([None, 3, 11]), 1)
+    for _ in range(ctx.n(10, 40)):
+        standard_case(ctx, rng.choice(["hem", "merton", "ctmc", "ctmc", "bs"]), rng.choice(["fixed", "jump"]), rng.randint(2, 12), rng.choice([None, 3, 11]), 1)
     # multi-process
     for mode in ("fixed", "jump"):
         for nproc in ((2,) if not ctx.thorough else (2, 4)):
@@ -248,8 +248,11 @@ def run(ctx):
         (0, 2, 2, [([2], False, [2, 2]), ([3, 2], False, [3, 2, 2]), ([0] * 8, True, [0] * 8)]),
         (1, 3, 3, [([5, 4], False, []), ([5, 4], False, [5, 4, 2]), ([0] * 8, True, [0] * 8)]),
         (1, 2, 1, [([2, 2], True, [])]),
+        # three coupled levels from the start (each level's process is a deep copy of the previous one), a later level added,
+        # and further passes on the copied levels
+        (2, 3, 4, [([4, 4, 3], False, [4, 4, 3, 2]), ([5, 4, 4, 3], False, [5, 4, 4, 3, 2]), ([0] * 8, True, [0] * 8)]),
     ]
-    for L0, N0, lm, h in hists[: ctx.n(2, 3)]:
+    for L0, N0, lm, h in hists:
         for mode in ("fixed", "jump"):
             for seed in (None, 5):
                 mlmc_case(ctx, h, L0, N0, lm, mode, seed)
